@@ -204,6 +204,9 @@ pub fn merge_spec_pos(name: &str, rewrite: Option<(bool, usize)>, kata_pos: [&'s
             r.pos = pos_of(P_NOUN);
         }
     }
+    // a numeral written full-width whose normalised form is what the plugin would produce anyway:
+    // standing alone it is not part of any merge
+    s.system.push(Row::new("3", 9, 9, 2400, P_NUM).headword("３").norm("3"));
     // (the sibling of the conjugating part of speech P_VERB_B: `行く` carries P_VERB and comes first)
     s.system.push(Row::new("行っ", 1, 1, 5122, P_VERB_B));
     // words of a user dictionary take part in merges and are left alone like any other
@@ -230,7 +233,7 @@ pub fn main(tier: Tier, replay: Option<String>) -> i32 {
         let w = Arc::new(World::build(merge_spec_pos("W-merge-n1-m2-verb-pos", Some((true, 2)), P_VERB_B)).expect("variant"));
         variants.push(RewriteVariant { world: w, normalize: true, min_len: 2, kata_pos: P_VERB_B });
     }
-    let alpha = syms(&["1", "ア", "x"], &["2", "〇", "一", "十", ",", ".", "ァ", "カ", "タ", "東", "万", "ー", "ナ", "千", "二", "0"]);
+    let alpha = syms(&["1", "ア", "x"], &["2", "〇", "一", "十", ",", ".", "ァ", "カ", "タ", "東", "万", "ー", "ナ", "千", "二", "0", "3"]);
     let bounds = tier.pick(TreeBounds { full_len: 3, ext_len: 6, max_special: 2 }, TreeBounds { full_len: 4, ext_len: 7, max_special: 2 });
     let b = bounds.to_json();
     let jobs = vec![job(
